@@ -10,7 +10,9 @@ import (
 	"context"
 	"errors"
 	"fmt"
+	"net/http"
 	"os"
+	"strings"
 	"sync"
 	"testing"
 	"time"
@@ -33,6 +35,7 @@ type c14Case struct {
 	MaxLoad   float64         `json:"maxload"`
 	Events    [][]interface{} `json:"events"`
 	ProbationMs int           `json:"probation_ms"`
+	BootKills   []int         `json:"bootkills"` // ordinals of Worker.FuncLocations calls whose machine dies while booting
 }
 
 func c14Place(c *c14Case) vtr.Rec {
@@ -77,6 +80,7 @@ type c14Live struct {
 	changed chan struct{}
 	quiet   bool
 	pending int
+	mprocs  interface{} // procs per machine, from the last MgrStart
 }
 
 func (l *c14Live) mach(m *sliceMachine) int {
@@ -147,7 +151,7 @@ func (l *c14Live) hook(ev string, args ...interface{}) {
 		for _, m := range ms {
 			ids = append(ids, l.mach(m))
 		}
-		r["machines"], r["nfail"], r["pending"] = ids, args[1], args[2]
+		r["machines"], r["nfail"], r["pending"], r["machprocs"] = ids, args[1], args[2], l.mprocs
 		maxes := []int{}
 		for _, m := range ms {
 			maxes = append(maxes, m.maxTaskProcs)
@@ -159,6 +163,7 @@ func (l *c14Live) hook(ev string, args ...interface{}) {
 		l.quiet = false
 	case "MgrStart":
 		r["nmach"], r["pending"], r["have"], r["need"], r["maxp"], r["machprocs"] = args[0], args[1], args[2], args[3], args[4], args[5]
+		l.mprocs = args[5]
 		l.quiet = false
 	}
 	l.w = append(l.w, r)
@@ -205,6 +210,50 @@ func (l *c14Live) settle() bool {
 
 var errC14Transport = errors.New("c14 transport error")
 
+// c14BootKiller kills the machine serving the n'th Worker.FuncLocations call (the executor's handshake with a
+// machine that has just come up), for the n in at: a machine lost while it is being started.
+type c14BootKiller struct {
+	mu   sync.Mutex
+	sys  *testsystem.System
+	base http.RoundTripper
+	at   []int
+	n    int
+}
+
+func (k *c14BootKiller) RoundTrip(req *http.Request) (*http.Response, error) {
+	if !strings.HasSuffix(req.URL.Path, "Worker.FuncLocations") {
+		return k.base.RoundTrip(req)
+	}
+	k.mu.Lock()
+	k.n++
+	hit := false
+	for _, a := range k.at {
+		hit = hit || a == k.n
+	}
+	k.mu.Unlock()
+	if !hit {
+		return k.base.RoundTrip(req)
+	}
+	addr := req.URL.Scheme + "://" + req.URL.Host
+	done := make(chan struct{})
+	go func() {
+		defer close(done)
+		for i := 0; i < k.sys.N(); i++ {
+			func() {
+				defer func() { recover() }()
+				if m := k.sys.Index(i); m.Addr == addr {
+					k.sys.Kill(m)
+				}
+			}()
+		}
+	}()
+	select {
+	case <-done:
+	case <-time.After(5 * time.Second):
+	}
+	return nil, fmt.Errorf("c14: connection to %s lost", addr)
+}
+
 func c14RunLive(c *c14Case) (rec vtr.Rec) {
 	rec = vtr.Rec{"id": c.ID, "mode": "live", "machprocs": c.MachProcs, "maxp": c.MaxP, "maxload": c.MaxLoad}
 	l := &c14Live{machIdx: map[*sliceMachine]int{}, reqIdx: map[*scheduleRequest]int{}, changed: make(chan struct{}, 1)}
@@ -220,6 +269,10 @@ func c14RunLive(c *c14Case) (rec vtr.Rec) {
 	system.KeepalivePeriod = 100 * time.Millisecond
 	system.KeepaliveTimeout = 400 * time.Millisecond
 	system.KeepaliveRpcTimeout = 100 * time.Millisecond
+	if len(c.BootKills) > 0 {
+		cl := system.HTTPClient()
+		cl.Transport = &c14BootKiller{sys: system, base: cl.Transport, at: c.BootKills}
+	}
 	b := bigmachine.Start(system)
 	ctx, cancel := context.WithCancel(context.Background())
 	m := newMachineManager(b, nil, nil, c.MaxP, c.MaxLoad, &worker{MachineCombiners: false})
